@@ -3,8 +3,10 @@ package muxrun
 // The receive side over a SCRIPTED socket (no wall clock): ops
 //
 //	rx  <proto> <deadline 0|1> <waiting ids|-> <gone ids|-> <item>...   item = hex chunk | T (read-deadline expiry)
-//	rxk ...                                                              same, excluded class (known finding)
-//	rd  <deadline 0|1> <k> <item>...                                     one Conn.Read of k bytes
+//	rxo ...                                                              same; a frame on a reserved stream / with the compressed flag / a truncated stream (model-vs-code only)
+//	rxk ...                                                              same; >= 5 expiries inside one body: excluded class (known finding)
+//	rd  <deadline 0|1> <k> <item>...                                     one Conn.Read of k bytes (enough bytes, < 5 expiries before the k-th)
+//	rdo ...                                                              same; short stream or >= 5 expiries (model-vs-code only)
 //
 // executed on the real Conn.recv / Conn.Read through /repo/verif_export_c01b.go and on Model/MuxRx.lean.
 
@@ -40,6 +42,9 @@ func rxBodyLen(r *vh.Rng) int {
 	case 2:
 		return 8186 + r.Intn(12) // around the discard chunk
 	case 3:
+		if r.Intn(4) == 0 {
+			return 33000 + r.Intn(40000)
+		}
 		return 9000 + r.Intn(8000)
 	case 4, 5:
 		return 100 + r.Intn(300)
@@ -233,6 +238,19 @@ func GenRx(r *vh.Rng, kf bool) (line string, class string) {
 		}
 		items = append(items, rxItems(r, enc, pos)...)
 	}
+	// the cuts above never join two frames: now join neighbouring chunks (several frames, or the tail of one
+	// and the head of the next, in ONE write): none / some / all that are not separated by an expiry
+	if pj := []int{0, 50, 100}[r.Intn(3)]; pj > 0 {
+		var joined [][]byte
+		for _, it := range items {
+			if n := len(joined); it != nil && n > 0 && joined[n-1] != nil && r.Intn(100) < pj {
+				joined[n-1] = append(append([]byte(nil), joined[n-1]...), it...)
+			} else {
+				joined = append(joined, it)
+			}
+		}
+		items = joined
+	}
 	if r.Intn(5) == 0 {
 		items = append(items, nil) // expiry after the last byte
 	}
@@ -244,8 +262,13 @@ func GenRx(r *vh.Rng, kf bool) (line string, class string) {
 		kinds["truncated"] = true
 	}
 	opw := "rx"
-	if kf {
+	switch {
+	case kf:
 		opw = "rxk"
+	case kinds["reserved-stream"] || kinds["compressed-flag"] || kinds["truncated"]:
+		// outside the hypotheses of C01_rx_sync_partial (frames a server must not send / an incomplete
+		// stream): model-vs-code only
+		opw = "rxo"
 	}
 	class = opw
 	for _, k := range []string{"kf-tail-is-a-frame", "kf-tail-bad-version", "reserved-stream", "truncated", "compressed-flag", "event", "gone", "unknown-id", "second-frame-for-id"} {
@@ -275,11 +298,21 @@ func GenRd(r *vh.Rng) (string, string) {
 	if r.Intn(6) == 0 {
 		dl = 0
 	}
-	cls := "rd/" + map[bool]string{true: "enough-bytes", false: "short"}[n >= k]
-	if len(pos) >= 5 {
-		cls += "/5+expiries"
+	// expiries before the k-th byte
+	before := 0
+	for _, p := range pos {
+		if p < k {
+			before++
+		}
 	}
-	return fmt.Sprintf("rd %d %d%s", dl, k, itemsText(rxItems(r, b, pos))), cls
+	// rd: enough bytes and fewer than five expiries before the k-th byte (or no deadline): theorem
+	// C01_rx_read_ok says the answer is exactly the next k bytes; rdo: the other cases, model = code as it is
+	opw, cls := "rd", "rd/exact"
+	if n < k || (dl == 1 && before >= 5) {
+		opw = "rdo"
+		cls = "rdo/" + map[bool]string{true: "short-stream", false: "gives-up"}[n < k]
+	}
+	return fmt.Sprintf("%s %d %d%s", opw, dl, k, itemsText(rxItems(r, b, pos))), cls
 }
 
 func parseRxItems(ws []string) ([][]byte, error) {
@@ -313,8 +346,18 @@ func parseIDs(w string) ([]int, error) {
 	return out, nil
 }
 
+var rxHung bool
+
 // RunRx executes one rx / rxk / rd op line on the real code.
 func RunRx(line string) (ans string) {
+	if rxHung {
+		return "skipped-after-hang"
+	}
+	defer func() {
+		if strings.HasPrefix(ans, "crash:hang") {
+			rxHung = true // the receive loop was found blocked (15 s watchdog, dump in gocql.VerifLastHangDump)
+		}
+	}()
 	defer func() {
 		if e := recover(); e != nil {
 			ans = fmt.Sprintf("crash:%v", e)
@@ -322,7 +365,7 @@ func RunRx(line string) (ans string) {
 	}()
 	w := strings.Fields(line)
 	switch {
-	case len(w) >= 5 && (w[0] == "rx" || w[0] == "rxk"):
+	case len(w) >= 5 && (w[0] == "rx" || w[0] == "rxk" || w[0] == "rxo"):
 		proto, e1 := strconv.Atoi(w[1])
 		dl, e2 := strconv.Atoi(w[2])
 		waiting, e3 := parseIDs(w[3])
@@ -332,7 +375,7 @@ func RunRx(line string) (ans string) {
 			return "bad-op"
 		}
 		return gocql.VerifRecvScript(proto, dl != 0, items, waiting, gone)
-	case len(w) >= 3 && w[0] == "rd":
+	case len(w) >= 3 && (w[0] == "rd" || w[0] == "rdo"):
 		dl, e1 := strconv.Atoi(w[1])
 		k, e2 := strconv.Atoi(w[2])
 		items, e3 := parseRxItems(w[3:])
